@@ -3,6 +3,7 @@ use crate::common::Emitter;
 pub mod c05;
 pub mod c08;
 pub mod c09;
+pub mod c12;
 pub mod c15;
 pub mod c16;
 pub mod c17;
@@ -19,6 +20,7 @@ pub fn run(suite: &str, seed: u64, count: u64, corpus: Option<&str>, em: &mut Em
         "c08" => c08::run(seed, count, corpus, em),
         "c08classify" => c08::run_classify(seed, count, corpus, em),
         "c05repo" => c05::run_repo(seed, count, corpus, em),
+        "c12" => c12::run(seed, count, corpus, em),
         "c15" => c15::run(seed, count, corpus, em),
         "c15repo" => c15::run_repo(seed, count, corpus, em),
         "c16" => c16::run(seed, count, corpus, em),
